@@ -163,7 +163,12 @@ Layout(b) ==
     \* description length larger than the fixed size of the entries of a known grouping type
     [] b = "sgpd-rap-odd" -> L("sgpd", TRUE, {1}, {}, <<Const("grouping_type", <<114, 97, 112, 32>>), Const("default_length", <<0, 0, 0, 2>>), Cnt("entry_count", 4), Rep(<<U("entry_of_2_bytes", 2)>>)>>)
     [] b = "sgpd-roll-odd" -> L("sgpd", TRUE, {1}, {}, <<Const("grouping_type", <<114, 111, 108, 108>>), Const("default_length", <<0, 0, 0, 3>>), Cnt("entry_count", 4), Rep(<<U("entry_of_3_bytes", 3)>>)>>)
-    [] b = "sgpd-v2" -> L("sgpd", TRUE, {2}, {}, <<Const("grouping_type", <<114, 111, 108, 108>>), U("default_group_description_index", 4), Cnt("entry_count", 4), Rep(<<U("roll_distance", 2)>>)>>)
+    [] b = "sgpd-v2" -> L("sgpd", TRUE, {2}, {}, <<Const("grouping_type", <<114, 111, 108, 108>>), Const("default_length", <<0, 0, 0, 2>>), U("default_group_description_index", 4), Cnt("entry_count", 4), Rep(<<U("roll_distance", 2)>>)>>)
+    \* default_length 0: every entry carries its own description_length (version 1 and 2; 8.9.3.2, 2015 edition and later: version >= 1)
+    [] b = "sgpd-v1-len0" -> L("sgpd", TRUE, {1}, {}, <<Const("grouping_type", <<114, 111, 108, 108>>), Const("default_length", <<0, 0, 0, 0>>), Cnt("entry_count", 4),
+                        Rep(<<Const("description_length", <<0, 0, 0, 2>>), U("roll_distance", 2)>>)>>)
+    [] b = "sgpd-v2-len0" -> L("sgpd", TRUE, {2}, {}, <<Const("grouping_type", <<114, 111, 108, 108>>), Const("default_length", <<0, 0, 0, 0>>), U("default_group_description_index", 4), Cnt("entry_count", 4),
+                        Rep(<<Const("description_length", <<0, 0, 0, 2>>), U("roll_distance", 2)>>)>>)
     [] b = "sgpd-unknown" -> L("sgpd", TRUE, {1}, {}, <<Const("grouping_type", <<113, 113, 113, 113>>), Const("default_length", <<0, 0, 0, 3>>), Cnt("entry_count", 4), Rep(<<U("opaque", 3)>>)>>)
     [] b = "senc" -> L("senc", TRUE, {0}, {2}, <<Cnt("sample_count", 4), Rep(<<Fix("InitializationVector", 8), If(Flag(2), <<Const("subsample_count", <<0, 1>>), U("BytesOfClearData", 2), U("BytesOfProtectedData", 4)>>)>>)>>)
     [] b = "stpp" -> L("stpp", FALSE, {0}, {}, <<Res(Zeros(6)), U("data_reference_index", 2), Str0("namespace"), Str0("schema_location"), Str0("auxiliary_mime_types"), Kids(<<"btrt">>)>>)
@@ -217,6 +222,17 @@ Layout(b) ==
                         Const("DecoderConfigDescrTag", <<4>>), Const("DecoderConfigDescr_size", <<17>>), Const("objectTypeIndication", <<64>>), Const("streamType_upStream_reserved", <<21>>), U("bufferSizeDB", 3),
                         U("maxBitrate", 4), U("avgBitrate", 4), Const("DecSpecificInfoTag", <<5>>), Const("DecSpecificInfo_size", <<2>>), Const("AudioSpecificConfig", <<18, 16>>),
                         Const("SLConfigDescrTag", <<6>>), Const("SLConfigDescr_size", <<1>>), Const("predefined", <<2>>)>>)
+    \* a further descriptor (user private tag 0x80) before / after the SLConfigDescriptor: the order of the descriptors is payload
+    [] b = "esds-other-before-sl" -> L("esds", TRUE, {0}, {}, <<Const("ES_DescrTag", <<3>>), Const("ES_Descr_size", <<29>>), U("ES_ID", 2), Const("streamDependence_URL_OCR_flags_streamPriority", <<0>>),
+                        Const("DecoderConfigDescrTag", <<4>>), Const("DecoderConfigDescr_size", <<17>>), Const("objectTypeIndication", <<64>>), Const("streamType_upStream_reserved", <<21>>), U("bufferSizeDB", 3),
+                        U("maxBitrate", 4), U("avgBitrate", 4), Const("DecSpecificInfoTag", <<5>>), Const("DecSpecificInfo_size", <<2>>), Const("AudioSpecificConfig", <<18, 16>>),
+                        Const("OtherDescrTag", <<128>>), Const("OtherDescr_size", <<2>>), U("OtherDescr_data", 2),
+                        Const("SLConfigDescrTag", <<6>>), Const("SLConfigDescr_size", <<1>>), Const("predefined", <<2>>)>>)
+    [] b = "esds-other-after-sl" -> L("esds", TRUE, {0}, {}, <<Const("ES_DescrTag", <<3>>), Const("ES_Descr_size", <<29>>), U("ES_ID", 2), Const("streamDependence_URL_OCR_flags_streamPriority", <<0>>),
+                        Const("DecoderConfigDescrTag", <<4>>), Const("DecoderConfigDescr_size", <<17>>), Const("objectTypeIndication", <<64>>), Const("streamType_upStream_reserved", <<21>>), U("bufferSizeDB", 3),
+                        U("maxBitrate", 4), U("avgBitrate", 4), Const("DecSpecificInfoTag", <<5>>), Const("DecSpecificInfo_size", <<2>>), Const("AudioSpecificConfig", <<18, 16>>),
+                        Const("SLConfigDescrTag", <<6>>), Const("SLConfigDescr_size", <<1>>), Const("predefined", <<2>>),
+                        Const("OtherDescrTag", <<128>>), Const("OtherDescr_size", <<2>>), U("OtherDescr_data", 2)>>)
     [] b = "esds-long-sizes" -> L("esds", TRUE, {0}, {}, <<Const("ES_DescrTag", <<3>>), Const("ES_Descr_size", <<128, 128, 128, 34>>), U("ES_ID", 2), Const("streamDependence_URL_OCR_flags_streamPriority", <<0>>),
                         Const("DecoderConfigDescrTag", <<4>>), Const("DecoderConfigDescr_size", <<128, 128, 128, 20>>), Const("objectTypeIndication", <<64>>), Const("streamType_upStream_reserved", <<21>>), U("bufferSizeDB", 3),
                         U("maxBitrate", 4), U("avgBitrate", 4), Const("DecSpecificInfoTag", <<5>>), Const("DecSpecificInfo_size", <<128, 128, 128, 2>>), Const("AudioSpecificConfig", <<18, 16>>),
